@@ -14,6 +14,7 @@ import (
 	"github.com/google/certificate-transparency-go/client"
 	"github.com/google/certificate-transparency-go/jsonclient"
 	"github.com/google/certificate-transparency-go/trillian/ctfe"
+	"github.com/google/certificate-transparency-go/x509"
 	"pgregory.net/rapid"
 
 	"verif/internal/ctfex"
@@ -21,6 +22,7 @@ import (
 	"verif/internal/keys"
 	"verif/internal/memstore"
 	"verif/internal/reflog"
+	"verif/internal/rfc6962"
 	"verif/internal/world"
 )
 
@@ -99,8 +101,16 @@ func checkFid(t *testing.T, c FidCase) (v harness.Verdict) {
 	for i, it := range c.Items {
 		if it.Spec == nil {
 			if c.Indirect {
-				// with external chain storage the front end must interpret extra_data; opaque bytes are
-				// outside the domain there
+				// with external chain storage the front end must interpret extra_data, so opaque bytes are
+				// outside the domain; instead pre-load an entry written before the feature was switched on
+				// (full chain inside the backend leaf), which must be served unchanged
+				pb := world.Build(world.ChainSpec{ID: uint32(50000 + i), Root: i % 4, Inters: []string{"p256", "p384"}[:len(it.Opaque)%3], LeafKind: "p256", Precert: len(it.Extra)%2 == 1, IncludeRoot: true})
+				plv, err := rfc6962.EncodeLeaf(rfc6962.Leaf{Timestamp: uint64(1500000000000 + i), Entry: pb.Entry()})
+				if err != nil {
+					t.Fatalf("reference leaf: %v", err)
+				}
+				be.AppendRaw(plv, pb.ExtraData())
+				v.Class("preloaded-direct-layout")
 				continue
 			}
 			be.AppendRaw(it.Opaque, it.Extra)
@@ -197,9 +207,12 @@ func checkFid(t *testing.T, c FidCase) (v harness.Verdict) {
 				}
 				continue
 			}
-			if err != nil {
-				v.Failf("decode-submitted", "LogEntryFromLeaf(index %d): %v", idx, err)
+			if le == nil || x509.IsFatal(err) {
+				v.Failf("decode-submitted", "LogEntryFromLeaf(index %d) did not recover the submitted entry: %v", idx, err)
 				continue
+			}
+			if err != nil {
+				v.Class("decoded-with-nonfatal-error")
 			}
 			b := st.built
 			if le.Index != int64(idx) || le.Leaf.TimestampedEntry.Timestamp != st.ts {
